@@ -134,6 +134,23 @@ class BoundedOut(io.StringIO):
         return super().write(s)
 
 
+def limit_memory_growth(extra=1 << 30):
+    """A generated program may double a list in nested loops: while the reference runs, the address space may grow by `extra`
+    bytes only, so that the program ends in a MemoryError (and is skipped) instead of taking the worker down."""
+    try:
+        import resource
+        soft, hard = resource.getrlimit(resource.RLIMIT_AS)
+        with open('/proc/self/statm') as f:
+            now = int(f.read().split()[0]) * resource.getpagesize()
+        cap = now + extra
+        if hard != resource.RLIM_INFINITY:
+            cap = min(cap, hard)
+        resource.setrlimit(resource.RLIMIT_AS, (cap, hard))
+        return lambda: resource.setrlimit(resource.RLIMIT_AS, (soft, hard))
+    except Exception:
+        return lambda: None
+
+
 def reference_run(src, inputs, ns=None):
     q = list(inputs)
 
@@ -149,6 +166,7 @@ def reference_run(src, inputs, ns=None):
     exc = None
     line = None
     real_sleep = time.sleep
+    restore_limit = limit_memory_growth()
     try:
         time.sleep = lambda *a, **k: None
         with contextlib.redirect_stdout(buf):
@@ -163,6 +181,7 @@ def reference_run(src, inputs, ns=None):
                     line = tb[-1].lineno
     finally:
         time.sleep = real_sleep
+        restore_limit()
     return ns, buf.getvalue(), exc, line, q
 
 
